@@ -239,8 +239,7 @@ theorem runsub_step0 {s s0 : St} {l : Label} (h : step0 s l = some s0) (hl : l â
          first
          | exact RunSub.refl _
          | (apply RunSub.append; simp; done)
-         | (repeat (first | exact RunSub.refl _ | (refine RunSub.modify ?_ _ _ (fun k hk => by first | exact hk | (simp at hk; done) | (simp only [] at hk; split at hk <;> simp at hk)))))
-         | (trace_state; sorry))
+         | (repeat (first | exact RunSub.refl _ | (refine RunSub.modify ?_ _ _ (fun k hk => by first | exact hk | (simp at hk; done) | (simp only [] at hk; split at hk <;> simp at hk))))))
 
 /-- A handler starts only at D1, for the head of the queue. -/
 theorem _root_.Conn.running_new' {s s0 : St} {l : Label} {j : Nat} {k0 : ReqCore} (h : step0 s l = some s0)
@@ -342,8 +341,7 @@ theorem tc_step0 {s s0 : St} {l : Label} (h : step0 s l = some s0) :
           show (tcv _).1 = _
           simp only [tcv_modCall, tcv_modCore, tcv_modMeta, tcv_cancelReq, tcv_toP2, tcv_setNotif, tcv_beginPR, tcv_afterP2,
             tcv_retireIn, tcv_markBroken]
-          rfl)
-       | (trace_state; sorry))
+          rfl))
 
 /-- The transport is closed only by a step that leaves the connection idle. -/
 theorem _root_.Conn.tc_step' {s s' : St} {l : Label} (h : step s l = some s') (hc : s'.transportCloses â‰  s.transportCloses) :
